@@ -1,2 +1,127 @@
-(* C17 -- placeholder while the proofs are being written *)
-From LK Require Import Model.C17_attributes.
+(* C17 -- Entity attributes attach exactly the supplied values to the supplied entities.
+   Property theorems only; each is closed by `exact <lemma>` and followed by Print Assumptions.
+   The model (Model/C17_attributes.v) is hand-written and tied to lenskit/data/builder.py,
+   attributes.py, entities.py by the history correspondence that ./check C17 evaluates inside Coq.
+
+   Property text -> theorem
+   * "For every entity class and every attribute of scalar, list, dense-vector or sparse-vector
+     layout added for any subset of the entity identifiers given in any order, reading the attribute
+     back - by entity identifier, ... for all entities or any selected subset - returns for each of
+     those entities exactly the value supplied for it and a missing value for every other entity,
+     with the declared dimension names and vector size preserved.  This holds regardless of the
+     order in which entities and attributes were added."        -> attr_read_back
+       (`run` interprets ANY history of add_entities / add_*_attribute calls, failing calls included;
+        `history` is what the accepted calls supplied; `value_of ids vals i` is the value paired with
+        entity i, None if there is none or it is null; `asked` is the selection, in the order asked,
+        or the whole table)
+   * "and a missing value for every other entity" for attributes never supplied -> no_phantom_attribute
+   * drop_null (the entities that have a value)                 -> drop_null_correct
+   * the offsets / values surgery places list j at row rows[j]  -> expand_align_correct
+   * scalar values and fixed-size vectors are re-ordered to the entity table
+                                                                -> scalar_placement_correct,
+                                                                   fixed_vector_placement_correct
+   * the dense-vector reader rebuilds the vectors from the value buffer -> vector_arrow_correct
+   * "in every supported output form": pandas / numpy / scipy / torch are functions of the Arrow-level
+     reading in the model (pandas_1d, pandas_vec, vec_matrix, sparse_rows); that the real conversions
+     agree entry-wise is checked on every query of every correspondence case (harness), not proved.
+
+   Hypotheses: `op_wf` (what a caller owes: the identifiers given with an attribute are distinct, one
+   value per identifier, dense vectors have the declared dimension >= 1).  np.argsort / Arrow take are
+   "sort the (row, payload) pairs by row" (the model uses its own insertion sort; any correct sort
+   gives the same result because rows are distinct). *)
+From Coq Require Import ZArith List Bool.
+From LK Require Import Model.C17_attributes Proofs.C17_align Proofs.C17_read Proofs.C17_main.
+Import ListNotations.
+Local Open Scope nat_scope.
+
+Theorem attr_read_back : forall ops name s ids sel,
+  Forall op_wf ops ->
+  let t := fst (run empty_table ops) in
+  In (name, s) (history empty_table ops) -> sel_ok t ids sel ->
+  exists a, find_attr t name = Some a /\
+    match s with
+    | SupScalar sids vals => read_scalar t (a_col a) sel = map (value_of sids vals) (asked t ids)
+    | SupList sids lists => read_lists t (a_col a) sel = map (value_of sids lists) (asked t ids)
+    | SupVector sids size vecs dims =>
+        read_vectors t (a_col a) sel = map (value_of sids vecs) (asked t ids) /\
+        vec_size (a_col a) = Some size /\ a_dims a = dims
+    | SupSparse sids ncol csr dims =>
+        read_sparse_lists t (a_col a) sel = map (value_of sids (map Some csr)) (asked t ids) /\
+        vec_size (a_col a) = Some ncol /\ a_dims a = dims
+    end.
+Proof. exact attr_read_back_l. Qed.
+Print Assumptions attr_read_back.
+
+Theorem no_phantom_attribute : forall ops name,
+  Forall op_wf ops -> (forall s, ~ In (name, s) (history empty_table ops)) ->
+  find_attr (fst (run empty_table ops)) name = None.
+Proof. exact no_phantom_attribute_l. Qed.
+Print Assumptions no_phantom_attribute.
+
+Theorem drop_null_correct : forall ops name s ids sel,
+  Forall op_wf ops ->
+  let t := fst (run empty_table ops) in
+  In (name, s) (history empty_table ops) -> sel_ok t ids sel ->
+  exists a, find_attr t name = Some a /\
+    sel_ids t (drop_null t (a_col a) sel) =
+    match s with
+    | SupScalar sids vals => filter (fun i => is_some (value_of sids vals i)) (asked t ids)
+    | SupList sids lists => filter (fun i => is_some (value_of sids lists i)) (asked t ids)
+    | SupVector sids _ vecs _ => filter (fun i => is_some (value_of sids vecs i)) (asked t ids)
+    | SupSparse sids _ csr _ => filter (fun i => is_some (value_of sids (map Some csr) i)) (asked t ids)
+    end.
+Proof. exact drop_null_correct_l. Qed.
+Print Assumptions drop_null_correct.
+
+(* the list array built by _expand_and_align_list_array, decoded (row r = values[offsets[r]:offsets[r+1]]
+   unless masked), has at row r the list given for row r, and null where none (or a null) was given *)
+Theorem expand_align_correct : forall (A : Type) n rows (lists : list (option (list A))),
+  NoDup rows -> Forall (fun r => r < n) rows ->
+  la_decode (expand_align n rows lists) = map (fun r => join (lookupn r (combine rows lists))) (seq 0 n).
+Proof. exact @expand_align_correct_l. Qed.
+Print Assumptions expand_align_correct.
+
+Theorem scalar_placement_correct : forall n rows (vals : list elem),
+  NoDup rows -> Forall (fun r => r < n) rows -> length vals = length rows ->
+  place_scalar n rows vals = map (fun r => join (lookupn r (combine rows vals))) (seq 0 n).
+Proof. exact place_scalar_correct_l. Qed.
+Print Assumptions scalar_placement_correct.
+
+Theorem fixed_vector_placement_correct : forall (A : Type) n rows (vecs : list (option (list A))),
+  NoDup rows -> Forall (fun r => r < n) rows -> length vecs = length rows ->
+  forallb (fun r => memn r rows) (seq 0 n) = true -> forallb is_some vecs = true ->
+  map Some (map snd (sort_rows (valid_pairs rows vecs))) = map (fun r => join (lookupn r (combine rows vecs))) (seq 0 n).
+Proof. exact @place_fixed_correct_l. Qed.
+Print Assumptions fixed_vector_placement_correct.
+
+(* VectorAttributeSet.arrow() on list storage: cutting the value buffer into `size`-vectors, and
+   _replace_vectors when some selected entity has none, give back exactly the selected column *)
+Theorem vector_arrow_correct : forall size (col : list (option (list elem))),
+  1 <= size -> Forall (vec_ok size) col ->
+  (if forallb is_some col then map Some (chunk (length col) size (flat_values col))
+   else replace_vectors size (map is_some col) (chunk (length col) size (flat_values col))) = col.
+Proof. exact vec_reconstruct. Qed.
+Print Assumptions vector_arrow_correct.
+
+(* non-vacuity: entities in two batches, a scalar attribute for a permuted subset, a dense vector
+   for every entity known at that time (fixed-size storage) followed by a further batch, a list and a
+   sparse attribute; the hypotheses hold and a permuted selection with undefined entities reads back
+   the supplied values *)
+Example c17_nonvacuous :
+  let ops := [OEntities [30; 10; 20]%Z;
+              OScalar 0 [20; 10]%Z [Some 5; Some 7]%Z;
+              OVector 1 [30; 10; 20]%Z 2 [Some [Some 1; Some 2]; Some [Some 3; None]; Some [Some 0; Some 0]]%Z (Some [8; 9]%Z);
+              OEntities [5; 40]%Z;
+              OList 2 [40; 10]%Z [Some [Some 1; Some 1]; Some []]%Z;
+              OSparse 3 [5; 30]%Z 4 [[(1%nat, 6%Z); (3%nat, 2%Z)]; []] None;
+              OVector 4 [40; 5]%Z 1 [Some [Some 9]; None]%Z None;
+              OScalar 0 [10]%Z [Some 1]%Z] in
+  let t := fst (run empty_table ops) in
+  Forall op_wf ops /\ snd (run empty_table ops) = [None; None; None; None; None; None; None; Some ENotImpl] /\
+  t_rows t = [10; 20; 30; 5; 40]%Z /\
+  sel_ok t (Some [40; 20; 5; 10]%Z) (Some [4; 1; 3; 0]) /\
+  In (0, SupScalar [20; 10]%Z [Some 5; Some 7]%Z) (history empty_table ops) /\
+  query t 0 (Some [40; 20; 5; 10]%Z) = Ok (VScalar [None; Some 5; None; Some 7]%Z [(20, Some 5); (10, Some 7)]%Z [(20, Some 5); (10, Some 7)]%Z [20; 10]%Z) /\
+  (exists a, find_attr t 1 = Some a /\ read_vectors t (a_col a) (Some [4; 1; 3; 0]) = [None; Some [Some 0; Some 0]; None; Some [Some 3; None]]%Z) /\
+  (exists a, find_attr t 4 = Some a /\ read_vectors t (a_col a) None = [None; None; None; None; Some [Some 9]]%Z).
+Proof. exact c17_nonvacuous_l. Qed.
